@@ -1695,4 +1695,1006 @@ theorem ucs_pass {b : Buf} {t k i : Nat} {σ : UState} {c : UInt8} (h : UInv b t
     simp [ucTok, h64, hbr.1.1.1.1, hbr.1.1.1.2, hbr.1.1.2, hbr.1.2, hbr.2]
 
 
+theorem ucs_host0 {b : Buf} {t k i : Nat} {σ : UState} {c : UInt8} (h : UInv b t k i σ) (hs : UcSInv b k i σ)
+    (hst : σ.st = .host0) (hc : b[i]? = some c) : UcSStepOK b k i (uriStep i c σ) := by
+  obtain ⟨hsch, hty, hp, hk, hi, hfit, hI⟩ := h
+  unfold UStInv at hI
+  rw [hst] at hI
+  simp only at hI
+  obtain ⟨hfu, hs0, hup, hbl⟩ := hI
+  unfold UcSInv at hs
+  rw [hst] at hs
+  simp only at hs
+  unfold uriStep
+  rw [hst]
+  simp only
+  by_cases h91 : (c == 91) = true
+  · simp only [h91, ↓reduceIte]
+    cases beq_u8 h91
+    unfold UcSStepOK UcSInv
+    simp only
+    exact ⟨fun _ => hs, by omega, by rw [hs0]; exact hc, UcAll.nil b _ (by omega)⟩
+  simp only [h91, Bool.false_eq_true, ↓reduceIte]
+  by_cases hbr : (c == 58 || c == 59 || c == 63 || c == 38 || c == 64) = true
+  · simp only [hbr, ↓reduceIte]
+    trivial
+  simp only [hbr, Bool.false_eq_true, ↓reduceIte]
+  unfold UcSStepOK UcSInv
+  simp only
+  refine ⟨hs, ?_, UcAll.nil b _ (by omega)⟩
+  rw [hs0]
+  refine UcAll.one hc ?_
+  simp only [Bool.or_eq_true, not_or, Bool.not_eq_true] at hbr
+  simp only [Bool.not_eq_true] at h91
+  simp [ucHost0, ucHost, h91, hbr.1.1.1.1, hbr.1.1.1.2, hbr.1.1.2, hbr.1.2, hbr.2]
+
+/-- the three ways a host ends inside the input (shared by host1 / host6E) -/
+theorem ucs_hostEnd {b : Buf} {k i : Nat} {σ : UState} (hlt : i < b.size) (hfit : b.size ≤ 65535)
+    (hs : σ.s < i) (hbl : Blank4 σ.u)
+    (hok : UcHostOK b k σ.u.user σ.u.pass ⟨σ.s, i - σ.s⟩ i)
+    (hund : σ.foundUser = false → σ.passOffs = 0 ∧ UcBrHost b k i) :
+    (b[i]? = some 58 → UcSStepOK b k i (.next { σ.setHost σ.s i with st := .port, s := i + 1 })) ∧
+    (b[i]? = some 59 → UcSStepOK b k i (.next { σ.setHost σ.s i with st := .param0, s := i + 1 })) ∧
+    (b[i]? = some 63 → UcSStepOK b k i (.next { σ.setHost σ.s i with st := .headers, s := i + 1 })) := by
+  obtain ⟨hh0, hpt0, hpa0, hhd0⟩ := hbl
+  have hset : PField.set σ.s i = ⟨σ.s, i - σ.s⟩ := uset_eq (by omega) (by omega)
+  have e : σ.s + (i - σ.s) = i := by omega
+  refine ⟨?_, ?_, ?_⟩
+  · intro hc
+    unfold UcSStepOK UcSInv
+    simp only [UState.setHost, hset, e]
+    exact ⟨hok, UcAll.nil b _ (Nat.le_refl _), fun hf => (hund hf).2⟩
+  · intro hc
+    unfold UcSStepOK UcSInv
+    simp only [UState.setHost, hset, e, hpt0]
+    refine ⟨hok, UcAll.nil b _ (by simp), UcAll.nil b _ (Nat.le_refl _), ?_⟩
+    intro hf
+    exact uc_back_fresh (Or.inr (Or.inl (hund hf).2)) (Or.inl hc) (by simp only [ucD1, hpa0, ↓reduceIte]) (hund hf).1 hf
+  · intro hc
+    unfold UcSStepOK UcSInv
+    simp only [UState.setHost, hset, e, hpt0, hpa0]
+    refine ⟨hok, UcAll.nil b _ (by simp), UcAll.nil b _ (by simp), fun _ => UcAll.nil b _ (Nat.le_refl _), ?_⟩
+    intro hf
+    exact uc_back_fresh (Or.inr (Or.inl (hund hf).2)) (Or.inr hc) (by simp only [ucD1, hpa0, ↓reduceIte]) (hund hf).1 hf
+
+theorem ucs_host1 {b : Buf} {t k i : Nat} {σ : UState} {c : UInt8} (h : UInv b t k i σ) (hs : UcSInv b k i σ)
+    (hst : σ.st = .host1) (hc : b[i]? = some c) : UcSStepOK b k i (uriStep i c σ) := by
+  obtain ⟨hsch, hty, hp, hk, hi, hfit, hI⟩ := h
+  have hlt := get?_lt hc
+  unfold UStInv at hI
+  rw [hst] at hI
+  simp only at hI
+  obtain ⟨hfu, hs0, hup, hbl⟩ := hI
+  unfold UcSInv at hs
+  rw [hst] at hs
+  simp only at hs
+  obtain ⟨⟨a, ha, hat, hui⟩, B1, B2⟩ := hs
+  have hok : UcHostOK b k σ.u.user σ.u.pass ⟨σ.s, i - σ.s⟩ i := by
+    refine Or.inr ⟨a, hat, hui, Or.inl ?_, by rw [ha]⟩
+    rw [← ha]
+    exact ⟨hs0, B1, B2⟩
+  obtain ⟨e58, e59, e63⟩ := ucs_hostEnd (k := k) hlt hfit hs0 hbl hok (fun hf => by rw [hfu] at hf; cases hf)
+  unfold uriStep
+  rw [hst]
+  simp only
+  by_cases h58 : (c == 58) = true
+  · simp only [h58, ↓reduceIte]
+    cases beq_u8 h58
+    exact e58 hc
+  simp only [h58, Bool.false_eq_true, ↓reduceIte]
+  by_cases h59 : (c == 59) = true
+  · simp only [h59, ↓reduceIte]
+    cases beq_u8 h59
+    exact e59 hc
+  simp only [h59, Bool.false_eq_true, ↓reduceIte]
+  by_cases h63 : (c == 63) = true
+  · simp only [h63, ↓reduceIte]
+    cases beq_u8 h63
+    exact e63 hc
+  simp only [h63, Bool.false_eq_true, ↓reduceIte]
+  by_cases hbr : (c == 38 || c == 64) = true
+  · simp only [hbr, ↓reduceIte]
+    trivial
+  simp only [hbr, Bool.false_eq_true, ↓reduceIte]
+  unfold UcSStepOK UcSInv
+  simp only [hst]
+  refine ⟨⟨a, ha, hat, hui⟩, B1, B2.snoc hc ?_⟩
+  simp only [Bool.or_eq_true, not_or, Bool.not_eq_true] at hbr
+  simp only [Bool.not_eq_true] at h58 h59 h63
+  simp [ucHost, h58, h59, h63, hbr.1, hbr.2]
+
+theorem ucs_host61 {b : Buf} {t k i : Nat} {σ : UState} {c : UInt8} (h : UInv b t k i σ) (hs : UcSInv b k i σ)
+    (hst : σ.st = .host61) (hc : b[i]? = some c) : UcSStepOK b k i (uriStep i c σ) := by
+  unfold UcSInv at hs
+  rw [hst] at hs
+  simp only at hs
+  obtain ⟨hui, hsi, h91, C⟩ := hs
+  unfold uriStep
+  rw [hst]
+  simp only
+  by_cases h93 : (c == 93) = true
+  · simp only [h93, ↓reduceIte]
+    cases beq_u8 h93
+    unfold UcSStepOK UcSInv
+    simp only
+    exact ⟨hui, h91, by omega, by simpa using hc, by simpa using C⟩
+  simp only [h93, Bool.false_eq_true, ↓reduceIte]
+  by_cases hbr : (c == 91 || c == 64 || c == 59 || c == 63 || c == 38) = true
+  · simp only [hbr, ↓reduceIte]
+    trivial
+  simp only [hbr, Bool.false_eq_true, ↓reduceIte]
+  unfold UcSStepOK UcSInv
+  simp only [hst]
+  refine ⟨hui, by omega, h91, C.snoc hc ?_⟩
+  simp only [Bool.or_eq_true, not_or, Bool.not_eq_true] at hbr
+  simp only [Bool.not_eq_true] at h93
+  simp [ucBrIn, h93, hbr.1.1.1.1, hbr.1.1.1.2, hbr.1.1.2, hbr.1.2, hbr.2]
+
+theorem ucs_host6E {b : Buf} {t k i : Nat} {σ : UState} {c : UInt8} (h : UInv b t k i σ) (hs : UcSInv b k i σ)
+    (hst : σ.st = .host6E) (hc : b[i]? = some c) : UcSStepOK b k i (uriStep i c σ) := by
+  obtain ⟨hsch, hty, hp, hk, hi, hfit, hI⟩ := h
+  have hlt := get?_lt hc
+  unfold UStInv at hI
+  rw [hst] at hI
+  simp only at hI
+  obtain ⟨hs0, hup, hbl, hund⟩ := hI
+  unfold UcSInv at hs
+  rw [hst] at hs
+  simp only at hs
+  obtain ⟨hui, hbr⟩ := hs
+  have hok : UcHostOK b k σ.u.user σ.u.pass ⟨σ.s, i - σ.s⟩ i := by
+    by_cases hfu : σ.foundUser = true
+    · obtain ⟨a, ha, hat, hu⟩ := hui hfu
+      refine Or.inr ⟨a, hat, hu, Or.inr ?_, by rw [ha]⟩
+      rw [← ha]
+      exact hbr
+    · have hfu' : σ.foundUser = false := by simpa using hfu
+      obtain ⟨_, ⟨hu0, hp0⟩, hsk⟩ := hund hfu'
+      refine Or.inl ⟨hu0, hp0, Or.inr ?_, by rw [hsk]⟩
+      rw [← hsk]
+      exact hbr
+  obtain ⟨e58, e59, e63⟩ := ucs_hostEnd (k := k) hlt hfit hs0 hbl hok (fun hf => by
+    obtain ⟨h1, _, h3⟩ := hund hf
+    exact ⟨h1, by rw [← h3]; exact hbr⟩)
+  unfold uriStep
+  rw [hst]
+  simp only
+  by_cases h58 : (c == 58) = true
+  · simp only [h58, ↓reduceIte]
+    cases beq_u8 h58
+    exact e58 hc
+  simp only [h58, Bool.false_eq_true, ↓reduceIte]
+  by_cases h59 : (c == 59) = true
+  · simp only [h59, ↓reduceIte]
+    cases beq_u8 h59
+    exact e59 hc
+  simp only [h59, Bool.false_eq_true, ↓reduceIte]
+  by_cases h63 : (c == 63) = true
+  · simp only [h63, ↓reduceIte]
+    cases beq_u8 h63
+    exact e63 hc
+  simp only [h63, Bool.false_eq_true, ↓reduceIte]
+  trivial
+
+
+theorem ucs_port {b : Buf} {t k i : Nat} {σ : UState} {c : UInt8} (h : UInv b t k i σ) (hpi : ULPInv b i σ)
+    (hs : UcSInv b k i σ) (hst : σ.st = .port) (hc : b[i]? = some c) : UcSStepOK b k i (uriStep i c σ) := by
+  obtain ⟨hsch, hty, hp, hk, hi, hfit, hI⟩ := h
+  have hlt := get?_lt hc
+  unfold UStInv at hI
+  rw [hst] at hI
+  simp only at hI
+  obtain ⟨hup, hhl, hcol, hs0, hsi, hpt0, hpa0, hhd0, hund⟩ := hI
+  unfold ULPInv at hpi
+  rw [hst] at hpi
+  simp only at hpi
+  obtain ⟨_, _, hacc⟩ := hpi
+  unfold UcSInv at hs
+  rw [hst] at hs
+  simp only at hs
+  obtain ⟨hok, D, hbr⟩ := hs
+  have hset : PField.set σ.s i = ⟨σ.s, i - σ.s⟩ := uset_eq hsi (by omega)
+  have e : σ.s + (i - σ.s) = i := by omega
+  unfold uriStep
+  rw [hst]
+  simp only
+  by_cases hdg : isDigit c = true
+  · simp only [hdg, ↓reduceIte]
+    unfold UcSStepOK UcSInv
+    simp only [hst]
+    exact ⟨hok, D.snoc hc hdg, hbr⟩
+  simp only [hdg, Bool.false_eq_true, ↓reduceIte]
+  by_cases hsq : (c == 59 || c == 63) = true
+  · simp only [hsq, ↓reduceIte]
+    simp only [UState.setPort, hset]
+    by_cases hbig : σ.portNo > 65535
+    · simp only [hbig, ↓reduceIte]
+      trivial
+    simp only [hbig, ↓reduceIte]
+    have hval : decOf (digitsOf b (σ.u.host.offs + σ.u.host.len + 1) i) ≤ 65535 := by
+      rw [← hs0]
+      by_cases hb' : decOf (digitsOf b σ.s i) > 65535
+      · have := (accPortL_spec (digitsOf b σ.s i) 0).2 hb'
+        omega
+      · omega
+    have hfld : UcFld b ⟨σ.s, i - σ.s⟩ isDigit := by
+      unfold UcFld
+      simp only [e]
+      exact D
+    have hback : ∀ σ' : UState, σ'.foundUser = σ.foundUser → σ'.passOffs = σ.passOffs → ucD1 σ' = i + 1 →
+        (b[i]? = some 59 ∨ b[i]? = some 63) → UcBack b k (i + 1) σ' := by
+      intro σ' h1 h2 h3 h4 hf
+      rw [h1] at hf
+      obtain ⟨g1, _, _⟩ := hund hf
+      refine uc_back_fresh ?_ h4 h3 (by rw [h2, g1]) (by rw [h1]; exact hf)
+      refine Or.inr (Or.inr ⟨_, hbr hf, hcol, by omega, ?_, hval⟩)
+      rw [← hs0]
+      exact D
+    by_cases h59 : (c == 59) = true
+    · simp only [h59, ↓reduceIte]
+      cases beq_u8 h59
+      unfold UcSStepOK UcSInv
+      simp only
+      exact ⟨hok, hfld, UcAll.nil b _ (Nat.le_refl _),
+        hback _ rfl rfl (by simp only [ucD1, hpa0, ↓reduceIte]) (Or.inl hc)⟩
+    · simp only [h59, Bool.false_eq_true, ↓reduceIte]
+      have h63 : c = 63 := by
+        have : (c == 63) = true := by simpa [h59] using hsq
+        exact beq_u8 this
+      subst h63
+      unfold UcSStepOK UcSInv
+      simp only [hpa0]
+      exact ⟨hok, hfld, UcAll.nil b _ (by simp), fun _ => UcAll.nil b _ (Nat.le_refl _),
+        hback _ rfl rfl (by simp only [ucD1, hpa0, ↓reduceIte]) (Or.inr hc)⟩
+  simp only [hsq, Bool.false_eq_true, ↓reduceIte]
+  trivial
+
+
+theorem UcBack.found {b : Buf} {k j : Nat} {σ' : UState} (h : σ'.foundUser = true) : UcBack b k j σ' := by
+  intro hf
+  rw [h] at hf
+  cases hf
+
+theorem UcBack.step {b : Buf} {k i : Nat} {c : UInt8} {σ σ' : UState} (h : UcBack b k i σ) (hc : b[i]? = some c)
+    (hf : σ'.foundUser = σ.foundUser) (hpo : σ'.passOffs = σ.passOffs) (hD : ucD1 σ' = ucD1 σ)
+    (h1 : σ.passOffs = 0 → ucW1 c = true) (h2 : σ.passOffs ≠ 0 → ucW2 c = true) : UcBack b k (i + 1) σ' := by
+  unfold UcBack at *
+  rw [hf, hpo, hD]
+  intro hh
+  obtain ⟨g1, g2, g3, g4, g5, g6⟩ := h hh
+  refine ⟨g1, g2, g3, by omega, fun h0 => (g5 h0).snoc hc (h1 h0), fun hne => ?_⟩
+  obtain ⟨g7, g8, g9⟩ := g6 hne
+  exact ⟨g7, g8, g9.snoc hc (h2 hne)⟩
+
+theorem UcBack.mark {b : Buf} {k i : Nat} {σ σ' : UState} (h : UcBack b k i σ) (hfu : σ.foundUser = false)
+    (hp0 : σ.passOffs = 0) (hpo : σ'.passOffs = i) (hD : ucD1 σ' = ucD1 σ) : UcBack b k (i + 1) σ' := by
+  unfold UcBack at *
+  rw [hpo, hD]
+  intro _
+  obtain ⟨g1, g2, g3, g4, g5, g6⟩ := h hfu
+  exact ⟨g1, g2, g3, by omega, fun h0 => absurd h0 (by omega), fun _ => ⟨g4, g5 hp0, UcAll.nil b _ (Nat.le_refl _)⟩⟩
+
+/-- the '@' found in parameters / headers: what was read is a user-info of the grammar -/
+theorem ucs_at {b : Buf} {k i : Nat} {σ : UState} (hlt : i < b.size) (hfit : b.size ≤ 65535) (hk : 0 < k)
+    (hund : Undecided b k i σ) (hend : σ.u.host.offs + σ.u.host.len < i) (hbk : UcBack b k i σ)
+    (hc : b[i]? = some 64) : UcSStepOK b k i (uAtInParams i σ) := by
+  unfold uAtInParams
+  by_cases hfu : σ.foundUser = false
+  · obtain ⟨⟨hu0, hp0⟩, hho, hpc⟩ := hund hfu
+    obtain ⟨g1, g2, g3, g4, g5, g6⟩ := hbk hfu
+    have hd1 : ucD1 σ - 1 + 1 = ucD1 σ := by omega
+    simp only [hfu, beq_self_eq_true, ↓reduceIte]
+    by_cases hpo : σ.passOffs = 0
+    · have hne : (σ.passOffs != 0) = false := by simp [hpo]
+      simp only [hne, Bool.false_eq_true, ↓reduceIte]
+      have hset : PField.set σ.u.host.offs i = ⟨k, i - k⟩ := by rw [hho]; exact uset_eq (by omega) (by omega)
+      unfold UcSStepOK UcSInv
+      simp only [UState.setUser, hset]
+      refine ⟨i, rfl, hc, Or.inr ⟨ucD1 σ - 1, i, g1, g2, by omega, ?_, rfl, Or.inl ⟨rfl, rfl⟩⟩⟩
+      rw [hd1]
+      exact g5 hpo
+    · have hne : (σ.passOffs != 0) = true := by simp [hpo]
+      simp only [hne, ↓reduceIte]
+      obtain ⟨hpa, hpb, hpcol⟩ := hpc hpo
+      obtain ⟨g7, g8, g9⟩ := g6 hpo
+      have hset : PField.set σ.u.host.offs σ.passOffs = ⟨k, σ.passOffs - k⟩ := by
+        rw [hho]; exact uset_eq (by omega) (by omega)
+      have hset2 : PField.set (σ.passOffs + 1) i = ⟨σ.passOffs + 1, i - (σ.passOffs + 1)⟩ :=
+        uset_eq (by omega) (by omega)
+      unfold UcSStepOK UcSInv
+      simp only [UState.setUser, UState.setPass, hset, hset2]
+      refine ⟨i, rfl, hc, Or.inr ⟨ucD1 σ - 1, σ.passOffs, g1, g2, by omega, ?_, rfl,
+        Or.inr ⟨hpcol, by omega, rfl, g9⟩⟩⟩
+      rw [hd1]
+      exact g8
+  · have hfu' : σ.foundUser = true := by simpa using hfu
+    simp only [hfu', Bool.true_eq_false, beq_iff_eq, ↓reduceIte]
+    trivial
+
+
+theorem ucs_param {b : Buf} {t k i : Nat} {σ : UState} {c : UInt8} (h : UInv b t k i σ) (hs : UcSInv b k i σ)
+    (hst : σ.st = .param0 ∨ σ.st = .param1) (hc : b[i]? = some c) : UcSStepOK b k i (uriStep i c σ) := by
+  obtain ⟨hsch, hty, hp, hk, hi, hfit, hI⟩ := h
+  have hlt := get?_lt hc
+  have hI' : UserPart b k σ.u.user σ.u.pass σ.u.host.offs ∧ 0 < σ.u.host.len ∧
+      USep b (σ.u.host.offs + σ.u.host.len) σ.u.port 58 ∧
+      b[uafter (σ.u.host.offs + σ.u.host.len) σ.u.port]? = some 59 ∧
+      σ.s = uafter (σ.u.host.offs + σ.u.host.len) σ.u.port + 1 ∧ σ.s ≤ i ∧
+      σ.u.params = ⟨0, 0⟩ ∧ σ.u.headers = ⟨0, 0⟩ ∧ Undecided b k i σ := by
+    unfold UStInv at hI
+    rcases hst with hst | hst <;> (rw [hst] at hI; exact hI)
+  obtain ⟨h1, h2, h3, h4, h5, h6, h7, h8, hund⟩ := hI'
+  have hs' : UcHostOK b k σ.u.user σ.u.pass σ.u.host (σ.u.host.offs + σ.u.host.len) ∧
+      UcFld b σ.u.port isDigit ∧ UcAll b σ.s i ucPar ∧ UcBack b k i σ := by
+    unfold UcSInv at hs
+    rcases hst with hst | hst <;> (rw [hst] at hs; exact hs)
+  obtain ⟨hok, hfp, P, hbk⟩ := hs'
+  have hend : σ.u.host.offs + σ.u.host.len < i := by
+    have := h3.le_uafter
+    omega
+  have hfcases : σ.foundUser = false ∨ σ.foundUser = true := by cases σ.foundUser <;> simp
+  have hpcases : (σ.passOffs != 0) = false ∧ σ.passOffs = 0 ∨ (σ.passOffs != 0) = true ∧ σ.passOffs ≠ 0 := by
+    by_cases hpo : σ.passOffs = 0
+    · exact Or.inl ⟨by simp [hpo], hpo⟩
+    · exact Or.inr ⟨by simp [hpo], hpo⟩
+  /- a step that stays in the parameters -/
+  have stay : ∀ σ' : UState, (σ'.st = .param0 ∨ σ'.st = .param1) → σ'.u = σ.u → σ'.s = σ.s → ucPar c = true →
+      UcBack b k (i + 1) σ' → UcSStepOK b k i (.next σ') := by
+    intro σ' hst' hu hss hpc hb'
+    show UcSInv b k (i + 1) σ'
+    unfold UcSInv
+    rcases hst' with hst' | hst' <;>
+    · rw [hst']
+      simp only
+      rw [hu, hss]
+      exact ⟨hok, hfp, P.snoc hc hpc, hb'⟩
+  unfold uriStep
+  rcases hst with hst | hst <;>
+  · rw [hst]
+    simp only
+    by_cases h64 : (c == 64) = true
+    · simp only [h64, ↓reduceIte]
+      cases beq_u8 h64
+      exact ucs_at hlt hfit hk hund hend hbk hc
+    simp only [h64, Bool.false_eq_true, ↓reduceIte]
+    have n64 : (c == 64) = false := by simpa using h64
+    by_cases h58 : (c == 58) = true
+    · simp only [h58, ↓reduceIte]
+      cases beq_u8 h58
+      rcases hfcases with hfu | hfu
+      · rcases hpcases with ⟨hne, hpo⟩ | ⟨hne, hpo⟩
+        · simp only [hfu, hne, beq_self_eq_true, Bool.false_eq_true, ↓reduceIte]
+          exact stay _ (Or.inr rfl) rfl rfl (by decide) (hbk.mark hfu hpo rfl rfl)
+        · simp only [hfu, hne, beq_self_eq_true, ↓reduceIte]
+          exact stay _ (Or.inr rfl) rfl rfl (by decide) (UcBack.found rfl)
+      · simp only [hfu, Bool.true_eq_false, beq_iff_eq, ↓reduceIte]
+        exact stay _ (Or.inr rfl) rfl rfl (by decide) (UcBack.found rfl)
+    simp only [h58, Bool.false_eq_true, ↓reduceIte]
+    have n58 : (c == 58) = false := by simpa using h58
+    by_cases h59 : (c == 59) = true
+    · simp only [h59, ↓reduceIte]
+      cases beq_u8 h59
+      rcases hpcases with ⟨hne, hpo⟩ | ⟨hne, hpo⟩
+      · simp only [hne, Bool.false_eq_true, ↓reduceIte]
+        exact stay _ (Or.inl rfl) rfl rfl (by decide)
+          (hbk.step hc rfl rfl rfl (fun _ => by decide) (fun h0 => absurd hpo h0))
+      · simp only [hne, ↓reduceIte]
+        exact stay _ (Or.inl rfl) rfl rfl (by decide) (UcBack.found rfl)
+    simp only [h59, Bool.false_eq_true, ↓reduceIte]
+    have n59 : (c == 59) = false := by simpa using h59
+    by_cases h63 : (c == 63) = true
+    · simp only [h63, ↓reduceIte]
+      cases beq_u8 h63
+      have hset : PField.set σ.s i = ⟨σ.s, i - σ.s⟩ := uset_eq h6 (by omega)
+      have e : σ.s + (i - σ.s) = i := by omega
+      have hs0 : σ.s ≠ 0 := by omega
+      have hfpar : UcFld b ⟨σ.s, i - σ.s⟩ ucPar := by
+        unfold UcFld
+        simp only [e]
+        exact P
+      rcases hpcases with ⟨hne, hpo⟩ | ⟨hne, hpo⟩
+      · simp only [UState.setParams, hne, Bool.false_eq_true, ↓reduceIte]
+        unfold UcSStepOK UcSInv
+        simp only [hset]
+        refine ⟨hok, hfp, hfpar, fun _ => UcAll.nil b _ (Nat.le_refl _), ?_⟩
+        refine hbk.step hc rfl rfl ?_ (fun _ => by decide) (fun h0 => absurd hpo h0)
+        simp only [ucD1, h7, hs0, ↓reduceIte]
+      · simp only [UState.setParams, hne, ↓reduceIte]
+        unfold UcSStepOK UcSInv
+        simp only [hset]
+        exact ⟨hok, hfp, hfpar, fun _ => UcAll.nil b _ (Nat.le_refl _), UcBack.found rfl⟩
+    simp only [h63, Bool.false_eq_true, ↓reduceIte]
+    have n63 : (c == 63) = false := by simpa using h63
+    exact stay _ (Or.inr rfl) rfl rfl (by simp [ucPar, n63, n64])
+      (hbk.step hc rfl rfl rfl (fun _ => by simp [ucW1, n64, n58]) (fun _ => by simp [ucW2, n64, n58, n59, n63]))
+
+
+theorem ucs_headers {b : Buf} {t k i : Nat} {σ : UState} {c : UInt8} (h : UInv b t k i σ) (hs : UcSInv b k i σ)
+    (hst : σ.st = .headers) (hc : b[i]? = some c) : UcSStepOK b k i (uriStep i c σ) := by
+  obtain ⟨hsch, hty, hp, hk, hi, hfit, hI⟩ := h
+  have hlt := get?_lt hc
+  unfold UStInv at hI
+  rw [hst] at hI
+  simp only at hI
+  obtain ⟨h1, h2, h3, h4, h5, h6, h7, h8, hund⟩ := hI
+  unfold UcSInv at hs
+  rw [hst] at hs
+  simp only at hs
+  obtain ⟨hok, hfp, hfpar, E, hbk⟩ := hs
+  have hend : σ.u.host.offs + σ.u.host.len < i := by
+    have := h3.le_uafter
+    have := h4.le_uafter
+    omega
+  have hfcases : σ.foundUser = false ∨ σ.foundUser = true := by cases σ.foundUser <;> simp
+  have hpcases : (σ.passOffs != 0) = false ∧ σ.passOffs = 0 ∨ (σ.passOffs != 0) = true ∧ σ.passOffs ≠ 0 := by
+    by_cases hpo : σ.passOffs = 0
+    · exact Or.inl ⟨by simp [hpo], hpo⟩
+    · exact Or.inr ⟨by simp [hpo], hpo⟩
+  have stay : ∀ σ' : UState, σ'.st = .headers → σ'.u = σ.u → σ'.s = σ.s →
+      (σ'.errHeaders = false → σ.errHeaders = false ∧ ucHdr c = true) →
+      UcBack b k (i + 1) σ' → UcSStepOK b k i (.next σ') := by
+    intro σ' hst' hu hss he' hb'
+    show UcSInv b k (i + 1) σ'
+    unfold UcSInv
+    rw [hst']
+    simp only
+    rw [hu, hss]
+    exact ⟨hok, hfp, hfpar, fun h0 => (E (he' h0).1).snoc hc (he' h0).2, hb'⟩
+  unfold uriStep
+  rw [hst]
+  simp only
+  by_cases h64 : (c == 64) = true
+  · simp only [h64, ↓reduceIte]
+    cases beq_u8 h64
+    exact ucs_at hlt hfit hk hund hend hbk hc
+  simp only [h64, Bool.false_eq_true, ↓reduceIte]
+  have n64 : (c == 64) = false := by simpa using h64
+  by_cases h59 : (c == 59) = true
+  · simp only [h59, ↓reduceIte]
+    cases beq_u8 h59
+    by_cases hbad : (σ.foundUser || σ.passOffs != 0) = true
+    · simp only [hbad, ↓reduceIte]
+      trivial
+    · simp only [hbad, Bool.false_eq_true, ↓reduceIte]
+      have hpo : σ.passOffs = 0 := by
+        rcases hpcases with ⟨_, h0⟩ | ⟨hne, _⟩
+        · exact h0
+        · exfalso; apply hbad; simp [hne]
+      exact stay _ rfl rfl rfl (fun h0 => by cases h0)
+        (hbk.step hc rfl rfl rfl (fun _ => by decide) (fun h0 => absurd hpo h0))
+  simp only [h59, Bool.false_eq_true, ↓reduceIte]
+  have n59 : (c == 59) = false := by simpa using h59
+  have hhdr : ucHdr c = true := by simp [ucHdr, n59, n64]
+  by_cases h58 : (c == 58) = true
+  · simp only [h58, ↓reduceIte]
+    cases beq_u8 h58
+    rcases hfcases with hfu | hfu
+    · rcases hpcases with ⟨hne, hpo⟩ | ⟨hne, hpo⟩
+      · simp only [hfu, hne, beq_self_eq_true, Bool.false_eq_true, ↓reduceIte]
+        exact stay _ rfl rfl rfl (fun h0 => ⟨h0, hhdr⟩) (hbk.mark hfu hpo rfl rfl)
+      · simp only [hfu, hne, beq_self_eq_true, ↓reduceIte]
+        exact stay _ rfl rfl rfl (fun h0 => ⟨h0, hhdr⟩) (UcBack.found rfl)
+    · simp only [hfu, Bool.true_eq_false, beq_iff_eq, ↓reduceIte]
+      exact stay _ hst rfl rfl (fun h0 => ⟨h0, hhdr⟩) (UcBack.found hfu)
+  simp only [h58, Bool.false_eq_true, ↓reduceIte]
+  have n58 : (c == 58) = false := by simpa using h58
+  by_cases h63 : (c == 63) = true
+  · simp only [h63, ↓reduceIte]
+    cases beq_u8 h63
+    rcases hpcases with ⟨hne, hpo⟩ | ⟨hne, hpo⟩
+    · simp only [hne, Bool.false_eq_true, ↓reduceIte]
+      exact stay _ hst rfl rfl (fun h0 => ⟨h0, hhdr⟩)
+        (hbk.step hc rfl rfl rfl (fun _ => by decide) (fun h0 => absurd hpo h0))
+    · simp only [hne, ↓reduceIte]
+      exact stay _ rfl rfl rfl (fun h0 => ⟨h0, hhdr⟩) (UcBack.found rfl)
+  simp only [h63, Bool.false_eq_true, ↓reduceIte]
+  have n63 : (c == 63) = false := by simpa using h63
+  exact stay _ hst rfl rfl (fun h0 => ⟨h0, hhdr⟩)
+    (hbk.step hc rfl rfl rfl (fun _ => by simp [ucW1, n64, n58]) (fun _ => by simp [ucW2, n64, n58, n59, n63]))
+
+/-- **one step preserves the byte-class invariant** -/
+theorem ucs_step {b : Buf} {t k i : Nat} {σ : UState} {c : UInt8} (h : UInv b t k i σ) (hpi : ULPInv b i σ)
+    (hs : UcSInv b k i σ) (hc : b[i]? = some c) : UcSStepOK b k i (uriStep i c σ) := by
+  rcases hst : σ.st with _ | _ | _ | _ | _ | _ | _ | _ | _ | _ | _ | _ | _ | _ | _ | _ | _ | _
+  case initSIP => exact ucs_init h (Or.inl hst) hc
+  case initSIPS => exact ucs_init h (Or.inr (Or.inl hst)) hc
+  case initTEL => exact ucs_init h (Or.inr (Or.inr hst)) hc
+  case user => exact ucs_user h hs hst hc
+  case pass0 => exact ucs_pass h hs (Or.inl hst) hc
+  case pass1 => exact ucs_pass h hs (Or.inr hst) hc
+  case host0 => exact ucs_host0 h hs hst hc
+  case host1 => exact ucs_host1 h hs hst hc
+  case host61 => exact ucs_host61 h hs hst hc
+  case host6E => exact ucs_host6E h hs hst hc
+  case port => exact ucs_port h hpi hs hst hc
+  case param0 => exact ucs_param h hs (Or.inl hst) hc
+  case param1 => exact ucs_param h hs (Or.inr hst) hc
+  case headers => exact ucs_headers h hs hst hc
+  all_goals
+    exfalso
+    have := h.2.2.2.2.2.2
+    unfold UStInv at this
+    rw [hst] at this
+    exact this
+
+theorem uriLoop_ucs {b : Buf} {t k : Nat} (i : Nat) (σ : UState) (h : UInv b t k i σ) (hpi : ULPInv b i σ)
+    (ha : UcSInv b k i σ) : (uriLoop b i σ).1 = .none → UcSInv b k b.size (uriLoop b i σ).2.2 := by
+  fun_induction uriLoop b i σ with
+  | case1 i σ hb =>
+    have hge := get?_none_ge hb
+    have hi : i ≤ b.size := h.2.2.2.2.1
+    have : i = b.size := by omega
+    subst this
+    exact fun _ => ha
+  | case2 i σ c hb σ' hstep ih =>
+    have hok := uriStep_ok h hb
+    have hpo := ustep_portinv h hpi hb
+    have hat := ucs_step h hpi ha hb
+    rw [hstep] at hok hat hpo
+    exact ih hok hpo hat
+  | case3 i σ c hb e p σ' hstep =>
+    have hok := uriStep_ok h hb
+    rw [hstep] at hok
+    exact fun h0 => absurd h0 hok.1
+
+
+/-- byte classes of the reported components -/
+def UcCls (b : Buf) (k : Nat) (u : PsipURI) : Prop :=
+  UcHostOK b k u.user u.pass u.host (u.host.offs + u.host.len) ∧ UcFld b u.port isDigit ∧
+  UcFld b u.params ucPar ∧ UcFld b u.headers ucHdr
+
+theorem uc_mk_hd {b : Buf} {p : Nat} {hd : PField} (h : USep b p hd 63) (hf : UcFld b hd ucHdr)
+    (hend : uafter p hd = b.size) : UcHd b p hd := by
+  rcases h with rfl | ⟨hc, ho⟩
+  · exact Or.inl ⟨hend, rfl⟩
+  · rw [uafter_present ho] at hend
+    rcases hd with ⟨o, l⟩
+    simp only at ho hend
+    subst ho
+    unfold UcFld at hf
+    simp only at hf
+    refine Or.inr ⟨hc, ?_, ?_⟩
+    · have : l = b.size - (p + 1) := by omega
+      rw [this]
+    · rw [← hend]; exact hf
+
+theorem uc_mk_pa {b : Buf} {p : Nat} {pa hd : PField} (h : USep b p pa 59) (hf : UcFld b pa ucPar)
+    (hh : UcHd b (uafter p pa) hd) : UcPa b p pa hd := by
+  rcases h with rfl | ⟨hc, ho⟩
+  · exact Or.inl ⟨rfl, hh⟩
+  · rw [uafter_present ho] at hh
+    rcases pa with ⟨o, l⟩
+    simp only at ho hh
+    subst ho
+    unfold UcFld at hf
+    simp only at hf
+    refine Or.inr ⟨hc, p + 1 + l, by omega, ?_, hf, hh⟩
+    have : p + 1 + l - (p + 1) = l := by omega
+    rw [this]
+
+theorem uc_mk_po {b : Buf} {p pn : Nat} {po pa hd : PField} (h : USep b p po 58) (hf : UcFld b po isDigit)
+    (hv : pn = decOf (digitsOf b po.offs (po.offs + po.len))) (hle : pn ≤ 65535)
+    (hh : UcPa b (uafter p po) pa hd) : UcPo b p po pn pa hd := by
+  rcases h with rfl | ⟨hc, ho⟩
+  · refine Or.inl ⟨rfl, ?_, hh⟩
+    rw [hv]
+    simp only [Nat.add_zero, digitsOf_self]
+    rfl
+  · rw [uafter_present ho] at hh
+    rcases po with ⟨o, l⟩
+    simp only at ho hh hv
+    subst ho
+    unfold UcFld at hf
+    simp only at hf
+    refine Or.inr ⟨hc, p + 1 + l, by omega, ?_, hf, hv, hle, hh⟩
+    have : p + 1 + l - (p + 1) = l := by omega
+    rw [this]
+
+/-- layout + byte classes + port value = the grammar -/
+theorem uc_rest_of_layout {b : Buf} {k : Nat} {u : PsipURI} (hl : URILayout b k u) (hc : UcCls b k u)
+    (hp : ULPortOK b u) : UcRest b k u := by
+  obtain ⟨_, _, _, h1, h2, h3, hend⟩ := hl
+  obtain ⟨c1, c2, c3, c4⟩ := hc
+  obtain ⟨_, p2, p3⟩ := hp
+  rw [UcRest_iff]
+  exact ⟨_, c1, uc_mk_po h1 c2 p2 p3 (uc_mk_pa h2 c3 (uc_mk_hd h3 c4 hend))⟩
+
+
+theorem uc_fin_nontel {n : Nat} {σx : UState} (ht : σx.u.uriType ≠ TELuri) :
+    (if σx.u.uriType == TELuri then
+        ((.none : UErr), n, { σx with u := { σx.u with user := σx.u.host, host := {} } })
+      else (.none, n, σx)) = (.none, n, σx) := by
+  rw [if_neg]
+  intro h
+  exact ht (by simpa using h)
+
+theorem UcFld.zero (b : Buf) (f : UInt8 → Bool) : UcFld b ⟨0, 0⟩ f := UcAll.nil b f (Nat.le_refl _)
+
+theorem uriFinish_cls {b : Buf} {t k : Nat} {σ : UState} (h : UInv b t k b.size σ) (hs : UcSInv b k b.size σ)
+    (ht : t ≠ TELuri) : (uriFinish b.size σ).1 = .none → UcCls b k (uriFinish b.size σ).2.2.u := by
+  obtain ⟨hsch, hty, hp, hk, hi, hfit, hI⟩ := h
+  have ht' : σ.u.uriType ≠ TELuri := by rw [hty]; exact ht
+  have hcond : (σ.u.uriType == TELuri) = false := by simpa using ht'
+  unfold UStInv at hI
+  unfold UcSInv at hs
+  rcases hst : σ.st with _ | _ | _ | _ | _ | _ | _ | _ | _ | _ | _ | _ | _ | _ | _ | _ | _ | _ <;>
+    rw [hst] at hI hs <;> simp only at hI hs
+  case initSIP => unfold uriFinish; rw [hst]; intro h0; cases h0
+  case initSIPS => unfold uriFinish; rw [hst]; intro h0; cases h0
+  case initTEL => unfold uriFinish; rw [hst]; intro h0; cases h0
+  case host0 => unfold uriFinish; rw [hst]; intro h0; cases h0
+  case host61 => unfold uriFinish; rw [hst]; intro h0; cases h0
+  case pass1 =>
+    unfold uriFinish
+    rw [hst]
+    have : (US.pass1 == US.pass1) = true := by decide
+    simp only [this, Bool.or_true, ↓reduceIte]
+    intro h0; cases h0
+  case user =>
+    obtain ⟨hs0, hki, hfu, hpo, ⟨hu0, hp0⟩, hh0, hpt0, hpa0, hhd0⟩ := hI
+    obtain ⟨A1, A2⟩ := hs
+    have hset : PField.set σ.s b.size = ⟨k, b.size - k⟩ := by rw [hs0]; exact uset_eq (by omega) (by omega)
+    have e : k + (b.size - k) = b.size := by omega
+    unfold uriFinish
+    rw [hst]
+    simp only [hfu, UState.setHost, hset, hcond, Bool.false_eq_true, ↓reduceIte]
+    intro _
+    unfold UcCls
+    simp only [e, hpt0, hpa0, hhd0]
+    exact ⟨Or.inl ⟨hu0, hp0, Or.inl ⟨hki, A1, A2⟩, rfl⟩, UcFld.zero b _, UcFld.zero b _, UcFld.zero b _⟩
+  case pass0 =>
+    obtain ⟨hfu, hpo, huo, hul, hcol, hs0, hsi, hp0, hh0, hpt0, hpa0, hhd0⟩ := hI
+    obtain ⟨hft, D⟩ := hs
+    have hset : PField.set σ.s b.size = ⟨σ.s, b.size - σ.s⟩ := uset_eq hsi (by omega)
+    have e : σ.s + (b.size - σ.s) = b.size := by omega
+    have hue : σ.u.user = ⟨k, k + σ.u.user.len - k⟩ := by
+      have : k + σ.u.user.len - k = σ.u.user.len := by omega
+      rw [this, ← huo]
+    unfold uriFinish
+    rw [hst]
+    have : (US.pass0 == US.pass1) = false := by decide
+    simp only [this, hfu, Bool.or_false, Bool.false_eq_true, ↓reduceIte]
+    simp only [UState.setPort, hset]
+    by_cases hbig : σ.portNo > 65535
+    · simp only [hbig, ↓reduceIte]
+      intro h0; cases h0
+    simp only [hbig, hcond, Bool.false_eq_true, ↓reduceIte]
+    intro _
+    unfold UcCls
+    simp only [hpa0, hhd0]
+    refine ⟨?_, ?_, UcFld.zero b _, UcFld.zero b _⟩
+    · rw [huo]
+      exact Or.inl ⟨rfl, hp0, Or.inl hft, hue⟩
+    · unfold UcFld
+      simp only [e]
+      exact D
+  case host1 =>
+    obtain ⟨hfu, hs0, hup, hh0, hpt0, hpa0, hhd0⟩ := hI
+    obtain ⟨⟨a, ha, hat, hui⟩, B1, B2⟩ := hs
+    have hset : PField.set σ.s b.size = ⟨σ.s, b.size - σ.s⟩ := uset_eq (by omega) (by omega)
+    have e : σ.s + (b.size - σ.s) = b.size := by omega
+    unfold uriFinish
+    rw [hst]
+    simp only [UState.setHost, hset, hcond, Bool.false_eq_true, ↓reduceIte]
+    intro _
+    unfold UcCls
+    simp only [e, hpt0, hpa0, hhd0]
+    refine ⟨Or.inr ⟨a, hat, hui, Or.inl ?_, by rw [ha]⟩, UcFld.zero b _, UcFld.zero b _, UcFld.zero b _⟩
+    rw [← ha]
+    exact ⟨hs0, B1, B2⟩
+  case host6E =>
+    obtain ⟨hs0, hup, ⟨hh0, hpt0, hpa0, hhd0⟩, hund⟩ := hI
+    obtain ⟨hui, hbr⟩ := hs
+    have hset : PField.set σ.s b.size = ⟨σ.s, b.size - σ.s⟩ := uset_eq (by omega) (by omega)
+    have e : σ.s + (b.size - σ.s) = b.size := by omega
+    unfold uriFinish
+    rw [hst]
+    simp only [UState.setHost, hset, hcond, Bool.false_eq_true, ↓reduceIte]
+    intro _
+    unfold UcCls
+    simp only [e, hpt0, hpa0, hhd0]
+    refine ⟨?_, UcFld.zero b _, UcFld.zero b _, UcFld.zero b _⟩
+    by_cases hfu : σ.foundUser = true
+    · obtain ⟨a, ha, hat, hu⟩ := hui hfu
+      refine Or.inr ⟨a, hat, hu, Or.inr ?_, by rw [ha]⟩
+      rw [← ha]
+      exact hbr
+    · have hfu' : σ.foundUser = false := by simpa using hfu
+      obtain ⟨_, ⟨hu0, hp0⟩, hsk⟩ := hund hfu'
+      refine Or.inl ⟨hu0, hp0, Or.inr ?_, by rw [hsk]⟩
+      rw [← hsk]
+      exact hbr
+  case port =>
+    obtain ⟨hup, hhl, hcol, hs0, hsi, hpt0, hpa0, hhd0, _⟩ := hI
+    obtain ⟨hok, D, _⟩ := hs
+    have hset : PField.set σ.s b.size = ⟨σ.s, b.size - σ.s⟩ := uset_eq hsi (by omega)
+    have e : σ.s + (b.size - σ.s) = b.size := by omega
+    unfold uriFinish
+    rw [hst]
+    simp only [UState.setPort, hset]
+    by_cases hbig : σ.portNo > 65535
+    · simp only [hbig, ↓reduceIte]
+      intro h0; cases h0
+    simp only [hbig, hcond, Bool.false_eq_true, ↓reduceIte]
+    intro _
+    unfold UcCls
+    simp only [hpa0, hhd0]
+    refine ⟨hok, ?_, UcFld.zero b _, UcFld.zero b _⟩
+    unfold UcFld
+    simp only [e]
+    exact D
+  case param0 =>
+    obtain ⟨h1, h2, h3, h4, h5, h6, h7, h8, _⟩ := hI
+    obtain ⟨hok, hfp, P, _⟩ := hs
+    have hset : PField.set σ.s b.size = ⟨σ.s, b.size - σ.s⟩ := uset_eq h6 (by omega)
+    have e : σ.s + (b.size - σ.s) = b.size := by omega
+    unfold uriFinish
+    rw [hst]
+    simp only [UState.setParams, hset, hcond, Bool.false_eq_true, ↓reduceIte]
+    intro _
+    unfold UcCls
+    simp only [h8]
+    refine ⟨hok, hfp, ?_, UcFld.zero b _⟩
+    unfold UcFld
+    simp only [e]
+    exact P
+  case param1 =>
+    obtain ⟨h1, h2, h3, h4, h5, h6, h7, h8, _⟩ := hI
+    obtain ⟨hok, hfp, P, _⟩ := hs
+    have hset : PField.set σ.s b.size = ⟨σ.s, b.size - σ.s⟩ := uset_eq h6 (by omega)
+    have e : σ.s + (b.size - σ.s) = b.size := by omega
+    unfold uriFinish
+    rw [hst]
+    simp only [UState.setParams, hset, hcond, Bool.false_eq_true, ↓reduceIte]
+    intro _
+    unfold UcCls
+    simp only [h8]
+    refine ⟨hok, hfp, ?_, UcFld.zero b _⟩
+    unfold UcFld
+    simp only [e]
+    exact P
+  case headers =>
+    obtain ⟨h1, h2, h3, h4, h5, h6, h7, h8, _⟩ := hI
+    obtain ⟨hok, hfp, hfpar, E, _⟩ := hs
+    have hset : PField.set σ.s b.size = ⟨σ.s, b.size - σ.s⟩ := uset_eq h7 (by omega)
+    have e : σ.s + (b.size - σ.s) = b.size := by omega
+    unfold uriFinish
+    rw [hst]
+    simp only [UState.setHeaders, hset]
+    by_cases herr : σ.errHeaders = true
+    · simp only [herr, ↓reduceIte]
+      intro h0; cases h0
+    simp only [herr, hcond, Bool.false_eq_true, ↓reduceIte]
+    intro _
+    unfold UcCls
+    simp only
+    refine ⟨hok, hfp, hfpar, ?_⟩
+    unfold UcFld
+    simp only [e]
+    exact E (by simpa using herr)
+
+
+theorem ucRun_cls {b : Buf} {t k : Nat} {σ0 : UState} (h : UInv b t k k σ0) (hpi : ULPInv b k σ0)
+    (hs : UcSInv b k k σ0) (ht : t ≠ TELuri) : (ucRun b k σ0).1 = .none → UcCls b k (ucRun b k σ0).2.2.1 := by
+  unfold ucRun
+  have hl := uriLoop_ok k σ0 h
+  have hla := uriLoop_ucs k σ0 h hpi hs
+  rcases hq : uriLoop b k σ0 with ⟨e, i, σ⟩
+  rw [hq] at hl hla
+  simp only at hl hla
+  by_cases he : e = .none
+  · subst he
+    obtain ⟨hi, hinv⟩ := hl.1 rfl
+    subst hi
+    exact fun hacc => uriFinish_cls hinv (hla rfl) ht hacc
+  · intro hacc
+    exfalso
+    apply he
+    cases e <;> first | rfl | exact hacc
+
+/-- an accepted run of type sip / sips from behind the scheme: the report is a decomposition of the grammar -/
+theorem ucRun_sound {b : Buf} {t k : Nat} (st : US) (hst : st = .initSIP ∨ st = .initSIPS ∨ st = .initTEL)
+    (hk : 0 < k) (hk2 : k ≤ b.size) (hfit : b.size ≤ 65535) (ht : t ≠ TELuri)
+    (hacc : (ucRun b k (ucStart t st k)).1 = .none) : UcComp b t k (ucRun b k (ucStart t st k)).2.2.1 := by
+  have hinv : UInv b t k k (ucStart t st k) := uinv_start b t k st hst hk hk2 hfit
+  have hpi : ULPInv b k (ucStart t st k) := by
+    rcases hst with rfl | rfl | rfl <;> exact ⟨rfl, rfl⟩
+  have hs : UcSInv b k k (ucStart t st k) := by
+    rcases hst with rfl | rfl | rfl <;> trivial
+  have hcls := ucRun_cls hinv hpi hs ht hacc
+  have hres : UResOK b t k (ucRun b k (ucStart t st k)) := ustart_ok hinv
+  have hport : ULPortOK b (ucRun b k (ucStart t st k)).2.2.1 := ustart_portinv hinv hpi hacc
+  obtain ⟨_, u0, hl, hty, hu⟩ := hres.2.2 hacc
+  rw [if_neg ht] at hu
+  rw [hu] at hcls hport ⊢
+  exact ⟨hty, hl.1, uc_rest_of_layout hl hcls hport⟩
+
+/-- **EXPORT C14 — soundness of the grammar**: every accepted sip: / sips: text (≤ 65,535 bytes) is a text of the
+    grammar, and the reported components are its decomposition -/
+theorem parseURI_sound (b : Buf) (hfit : b.size ≤ 65535) (hacc : (parseURI b {}).1 = .none)
+    (hsip : (parseURI b {}).2.2.1.uriType ≠ TELuri) : UcURI b (parseURI b {}).2.2.1 := by
+  by_cases h5 : b.size < 5
+  · rw [parseURI_err_short b h5] at hacc
+    cases hacc
+  obtain ⟨b0, h0⟩ : ∃ c, b[0]? = some c := ⟨b[0]'(by omega), Array.getElem?_eq_getElem (by omega)⟩
+  obtain ⟨b1, g1⟩ : ∃ c, b[1]? = some c := ⟨b[1]'(by omega), Array.getElem?_eq_getElem (by omega)⟩
+  obtain ⟨b2, g2⟩ : ∃ c, b[2]? = some c := ⟨b[2]'(by omega), Array.getElem?_eq_getElem (by omega)⟩
+  obtain ⟨b3, g3⟩ : ∃ c, b[3]? = some c := ⟨b[3]'(by omega), Array.getElem?_eq_getElem (by omega)⟩
+  obtain ⟨b4, g4⟩ : ∃ c, b[4]? = some c := ⟨b[4]'(by omega), Array.getElem?_eq_getElem (by omega)⟩
+  have hunf := uc_parse_unfold h0 g1 g2 g3 g4
+  by_cases c1 : ucWord b0 b1 b2 b3 = 980445555
+  · rw [if_pos c1] at hunf
+    rw [hunf] at hacc hsip ⊢
+    exact Or.inl ⟨⟨b0, b1, b2, b3, h0, g1, g2, g3,
+      (ucWord_eq b0 b1 b2 b3 115 105 112 58 (by omega) (by omega) (by omega) (by omega)).mp c1⟩,
+      ucRun_sound .initSIP (Or.inl rfl) (by omega) (by omega) hfit (by decide) hacc⟩
+  rw [if_neg c1] at hunf
+  by_cases c2 : ucWord b0 b1 b2 b3 = 980182388
+  · rw [if_pos c2] at hunf
+    rw [hunf] at hacc hsip
+    exfalso
+    apply hsip
+    have hinv : UInv b TELuri 4 4 (ucStart TELuri .initTEL 4) :=
+      uinv_start b TELuri 4 .initTEL (Or.inr (Or.inr rfl)) (by omega) (by omega) hfit
+    have hres : UResOK b TELuri 4 (ucRun b 4 (ucStart TELuri .initTEL 4)) := ustart_ok hinv
+    obtain ⟨_, u0, hl, hty, hu⟩ := hres.2.2 hacc
+    rw [hu, if_pos rfl]
+    exact hty
+  rw [if_neg c2] at hunf
+  by_cases c3 : ucWord b0 b1 b2 b3 = 1936746867 ∧ b4 = 58
+  · rw [if_pos c3] at hunf
+    rw [hunf] at hacc hsip ⊢
+    have hsz : 5 ≤ b.size := by omega
+    refine Or.inr ⟨⟨⟨b0, b1, b2, b3, h0, g1, g2, g3,
+      (ucWord_eq b0 b1 b2 b3 115 105 112 115 (by omega) (by omega) (by omega) (by omega)).mp c3.1⟩, ?_⟩,
+      ucRun_sound .initSIPS (Or.inr (Or.inl rfl)) (by omega) hsz hfit (by decide) hacc⟩
+    rw [g4, c3.2]
+  · rw [if_neg c3] at hunf
+    rw [hunf] at hacc
+    cases hacc
+
+/-- **EXPORT C14 — `parseURI_ok_iff`**: a text of at most 65,535 bytes is accepted as a sip: / sips: URI with the
+    report `u` exactly when `u` is a decomposition of the text according to the grammar `UcURI` -/
+theorem parseURI_iff (b : Buf) (hfit : b.size ≤ 65535) (u : PsipURI) :
+    UcURI b u ↔ (parseURI b {} = (.none, b.size, u, false) ∧ u.uriType ≠ TELuri) := by
+  constructor
+  · intro h
+    refine ⟨parseURI_complete b hfit u h, ?_⟩
+    rcases h with ⟨_, h, _⟩ | ⟨_, h, _⟩ <;> (rw [h]; decide)
+  · intro ⟨h, ht⟩
+    have hacc : (parseURI b {}).1 = .none := by rw [h]
+    have hu : (parseURI b {}).2.2.1 = u := by rw [h]
+    have := parseURI_sound b hfit hacc (by rw [hu]; exact ht)
+    rw [hu] at this
+    exact this
+
+/-- **EXPORT C14 — which texts are accepted**: exactly the texts of the grammar -/
+theorem parseURI_ok_iff (b : Buf) (hfit : b.size ≤ 65535) :
+    ((parseURI b {}).1 = .none ∧ (parseURI b {}).2.2.1.uriType ≠ TELuri) ↔ ∃ u, UcURI b u := by
+  constructor
+  · intro ⟨hacc, ht⟩
+    exact ⟨_, parseURI_sound b hfit hacc ht⟩
+  · intro ⟨u, hu⟩
+    obtain ⟨h, ht⟩ := (parseURI_iff b hfit u).mp hu
+    rw [h]
+    exact ⟨rfl, ht⟩
+
+/-- **EXPORT C14 — the decomposition is unique** -/
+theorem UcURI_unique (b : Buf) (hfit : b.size ≤ 65535) (u u' : PsipURI) (h : UcURI b u) (h' : UcURI b u') : u = u' := by
+  have e1 := parseURI_complete b hfit u h
+  have e2 := parseURI_complete b hfit u' h'
+  rw [e1] at e2
+  injection e2 with _ e3
+  injection e3 with _ e4
+  injection e4
+
+
+/-! ### tel: in its usual form -/
+
+/-- **EXPORT C14 — tel:** `tel:` number `[;params]` with no `@ : ? [ ]` in the number and no `?`, `@` in the
+    parameters: accepted, the host field is empty, the user field is the number, the parameters follow -/
+theorem parseURI_tel_simple (b : Buf) (hfit : b.size ≤ 65535) (hs : UcSchTel b) (he : Nat) (pa : PField)
+    (hnum : UcFirstTok b 4 he) (hpa : UcPa b he pa ⟨0, 0⟩) :
+    parseURI b {} = (.none, b.size,
+      { uriType := TELuri, scheme := ⟨0, 4⟩, user := ⟨4, he - 4⟩, host := ⟨0, 0⟩, params := pa }, false) := by
+  have := parseURI_complete_tel b hfit
+    { uriType := TELuri, scheme := ⟨0, 4⟩, host := ⟨4, he - 4⟩, params := pa }
+    ⟨hs, rfl, rfl, Or.inl ⟨rfl, rfl, he, Or.inl hnum, rfl, Or.inl ⟨rfl, rfl, hpa⟩⟩⟩
+  rw [this]
+
+/-! ### tests / non-vacuity -/
+
+/-- executable form of `UcAll`, for closed examples -/
+def ucAllB (b : Buf) (p q : Nat) (f : UInt8 → Bool) : Bool :=
+  (List.range' p (q - p)).all (fun j => match b[j]? with | some c => f c | none => true)
+
+theorem ucAll_of_check {b : Buf} {p q : Nat} {f : UInt8 → Bool} (h : ucAllB b p q f = true) : UcAll b p q f := by
+  intro j h1 h2 c hc
+  have := List.all_eq_true.mp h j (List.mem_range'_1.mpr ⟨h1, by omega⟩)
+  simp only [hc] at this
+  exact this
+
+
+-- non-vacuity, built by hand: `sip:u:p@h:5060;a?b` is a text of the grammar with these components
+-- (every leaf is a closed computation, `decide +kernel`)
+example : UcURI "sip:u:p@h:5060;a?b".toUTF8.data
+    { uriType := SIPuri, scheme := ⟨0, 4⟩, user := ⟨4, 1⟩, pass := ⟨6, 1⟩, host := ⟨8, 1⟩, port := ⟨10, 4⟩,
+      portNo := 5060, params := ⟨15, 1⟩, headers := ⟨17, 1⟩ } :=
+  Or.inl ⟨⟨115, 105, 112, 58, by decide +kernel, by decide +kernel, by decide +kernel, by decide +kernel,
+      by decide +kernel, by decide +kernel, by decide +kernel, by decide +kernel⟩,
+    rfl, rfl, Or.inr ⟨7, 9, by decide +kernel,
+      Or.inl ⟨5, ⟨by decide, ucAll_of_check (by decide +kernel), ucAll_of_check (by decide +kernel)⟩, rfl,
+        Or.inr ⟨by decide +kernel, by decide, rfl, ucAll_of_check (by decide +kernel)⟩⟩,
+      Or.inl ⟨by decide, ucAll_of_check (by decide +kernel), ucAll_of_check (by decide +kernel)⟩, rfl,
+      Or.inr ⟨by decide +kernel, 14, by decide, rfl, ucAll_of_check (by decide +kernel), by decide +kernel, by decide,
+        Or.inr ⟨by decide +kernel, 16, by decide, rfl, ucAll_of_check (by decide +kernel),
+          Or.inr ⟨by decide +kernel, by decide +kernel, ucAll_of_check (by decide +kernel)⟩⟩⟩⟩⟩
+
+-- hence (completeness) it is accepted with exactly these components
+example : parseURI "sip:u:p@h:5060;a?b".toUTF8.data {} = (.none, 18,
+    { uriType := SIPuri, scheme := ⟨0, 4⟩, user := ⟨4, 1⟩, pass := ⟨6, 1⟩, host := ⟨8, 1⟩, port := ⟨10, 4⟩,
+      portNo := 5060, params := ⟨15, 1⟩, headers := ⟨17, 1⟩ }, false) := by decide +kernel
+
+-- non-vacuity of the back-tracking part of the grammar (through `parseURI_iff`, right to left): `;` `?` `:` in
+-- front of the '@' belong to user / password, the host is bracketed
+example : UcURI "sip:u;x?y:p@[::1]:5060;a=b?c=d".toUTF8.data
+    { uriType := SIPuri, scheme := ⟨0, 4⟩, user := ⟨4, 5⟩, pass := ⟨10, 1⟩, host := ⟨12, 5⟩, port := ⟨18, 4⟩,
+      params := ⟨23, 3⟩, headers := ⟨27, 3⟩, portNo := 5060 } :=
+  (parseURI_iff _ (by decide +kernel) _).mpr ⟨by decide +kernel, by decide⟩
+-- a bracketed text with a port, taken back as user part by a later '@'
+example : UcURI "sip:[a]:1;x@h".toUTF8.data
+    { uriType := SIPuri, scheme := ⟨0, 4⟩, user := ⟨4, 7⟩, host := ⟨12, 1⟩ } :=
+  (parseURI_iff _ (by decide +kernel) _).mpr ⟨by decide +kernel, by decide⟩
+-- sips, upper case, no user
+example : ∃ u, UcURI "SIPS:h".toUTF8.data u :=
+  (parseURI_ok_iff _ (by decide +kernel)).mp ⟨by decide +kernel, by decide +kernel⟩
+-- quirks of the accepted language that the grammar has to contain (tests)
+example : (parseURI "sip:a&b".toUTF8.data {}).1 = .none ∧ (parseURI "sip:u@a&b".toUTF8.data {}).1 = .badChar := by
+  decide +kernel
+example : (parseURI "sip:u@a]b[".toUTF8.data {}).2.2.1.host = ⟨6, 4⟩ := by decide +kernel
+example : (parseURI "sip:h;a:[b]@d".toUTF8.data {}).1 = .none ∧ (parseURI "sip:u:[b]@d".toUTF8.data {}).1 = .badChar := by
+  decide +kernel
+example : (parseURI "sip:[a]:1;x@h".toUTF8.data {}).1 = .none ∧
+    (parseURI "sip:[a]:70000;x@h".toUTF8.data {}).1 = .port ∧ (parseURI "sip:u:1;x@h".toUTF8.data {}).1 = .badChar := by
+  decide +kernel
+
+-- tel: (hypotheses of `parseURI_tel_simple` met by `tel:+123;x=y`)
+example : parseURI "tel:+123;x=y".toUTF8.data {} = (.none, 12,
+    { uriType := TELuri, scheme := ⟨0, 4⟩, user := ⟨4, 4⟩, host := ⟨0, 0⟩, params := ⟨9, 3⟩ }, false) :=
+  parseURI_tel_simple _ (by decide +kernel)
+    ⟨116, 101, 108, 58, by decide +kernel, by decide +kernel, by decide +kernel, by decide +kernel,
+      by decide +kernel, by decide +kernel, by decide +kernel, by decide +kernel⟩ 8 ⟨9, 3⟩
+    ⟨by decide, ucAll_of_check (by decide +kernel), ucAll_of_check (by decide +kernel)⟩
+    (Or.inr ⟨by decide +kernel, 12, by decide, rfl, ucAll_of_check (by decide +kernel),
+      Or.inl ⟨by decide +kernel, rfl⟩⟩)
+
+-- rejections: the hypotheses of the error theorems are met by concrete inputs
+example : UcErrAt (parseURI "sip:u@h:99999;x".toUTF8.data {}) .port 13 :=
+  parseURI_err_port_big _ (by decide +kernel) (t := SIPuri) (k := 4) (hs := 6) (he := 7)
+    (Or.inl ⟨rfl, rfl, 115, 105, 112, 58, by decide +kernel, by decide +kernel, by decide +kernel, by decide +kernel,
+      by decide +kernel, by decide +kernel, by decide +kernel, by decide +kernel⟩)
+    (Or.inr ⟨5, ⟨4, 1⟩, ⟨0, 0⟩, rfl, by decide +kernel,
+      Or.inl ⟨5, ⟨by decide, ucAll_of_check (by decide +kernel), ucAll_of_check (by decide +kernel)⟩, rfl,
+        Or.inl ⟨rfl, rfl⟩⟩⟩)
+    (Or.inl ⟨by decide, by decide, ucAll_of_check (by decide +kernel), ucAll_of_check (by decide +kernel)⟩)
+    (by decide +kernel) (by decide) (ucAll_of_check (by decide +kernel)) (by decide +kernel)
+    (Or.inr (Or.inl (by decide +kernel)))
+example : UcErrAt (parseURI "sip:[::1;x".toUTF8.data {}) .host 8 :=
+  parseURI_err_bracket_open _ (by decide +kernel) (t := SIPuri) (k := 4) (hs := 4)
+    (Or.inl ⟨rfl, rfl, 115, 105, 112, 58, by decide +kernel, by decide +kernel, by decide +kernel, by decide +kernel,
+      by decide +kernel, by decide +kernel, by decide +kernel, by decide +kernel⟩)
+    (Or.inl rfl) (by decide +kernel) (by decide) (ucAll_of_check (by decide +kernel))
+    (Or.inr ⟨59, by decide +kernel, Or.inr (Or.inr (Or.inl rfl))⟩)
+example : parseURI "sip".toUTF8.data {} = (.tooShort, 3, {}, false) := parseURI_err_short _ (by decide +kernel)
+-- the shapes of the error theorems on more inputs (tests)
+example : (parseURI "sip:u@".toUTF8.data {}).1 = .host ∧ (parseURI "sip:u@".toUTF8.data {}).2.1 = 6 ∧
+    (parseURI "sip:u@h:12x".toUTF8.data {}).1 = .port ∧ (parseURI "sip:u@h:12x".toUTF8.data {}).2.1 = 10 ∧
+    (parseURI "http://x".toUTF8.data {}).1 = .scheme ∧ (parseURI "http://x".toUTF8.data {}).2.1 = 4 := by decide +kernel
+-- NOT the offending byte: without '@' a non-digit behind `host:` is taken as the start of a password, and the
+-- rejection comes at the end of the input (or at the next `;` `?`, as `ErrURIBadChar`)
+example : (parseURI "sip:h:12x".toUTF8.data {}).1 = .port ∧ (parseURI "sip:h:12x".toUTF8.data {}).2.1 = 9 ∧
+    (parseURI "sip:h:12x;y".toUTF8.data {}).1 = .badChar ∧ (parseURI "sip:h:12x;y".toUTF8.data {}).2.1 = 9 := by
+  decide +kernel
+
+
 end Sipsp
